@@ -59,7 +59,63 @@ type syncOnlyWriter struct {
 func (s *syncOnlyWriter) Write(b []byte) (int, error) { return len(b), nil }
 func (s *syncOnlyWriter) Sync() error                 { s.syncs++; return s.err }
 
+// c13combined: operations through Lock(multi(Lock(a), Lock(b))) are mutually
+// exclusive as a whole: every sink sees the same sequence of payloads.
+func c13combined(c *Ctx) {
+	g, r := c.G, c.R
+	k := 2 + g.Draw(2)
+	var sinks []*zsim.SimSink
+	var ws []zapcore.WriteSyncer
+	for i := 0; i < k; i++ {
+		s := zsim.NewSimSink(r, fmt.Sprintf("s%d", i), 1+g.Draw(2), uint64(i)+3)
+		sinks = append(sinks, s)
+		if g.Draw(3) != 0 {
+			ws = append(ws, zapcore.Lock(s))
+		} else {
+			ws = append(ws, s)
+		}
+	}
+	var target zapcore.WriteSyncer
+	if g.Chance(2) {
+		target = zap.CombineWriteSyncers(ws...)
+	} else {
+		target = zapcore.Lock(zapcore.NewMultiWriteSyncer(ws...))
+	}
+	nTasks := 2 + g.Draw(2)
+	c.Describe("member=lock-over-multi sinks=%d tasks=%d policy=%s", k, nTasks, r.Policy)
+	for t := 0; t < nTasks; t++ {
+		t := t
+		n := 1 + g.Draw(3)
+		r.Go(fmt.Sprintf("t%d", t), func() {
+			for i := 0; i < n; i++ {
+				if i == 1 {
+					_ = target.Sync()
+				}
+				p := []byte(fmt.Sprintf("<t%d.%d:%s>\n", t, i, strings.Repeat("x", i*7)))
+				if nn, err := target.Write(p); nn != len(p) || err != nil {
+					c.Fail("C13: a locked multi-WriteSyncer over healthy sinks did not accept the payload", "(%d, %v)", nn, err)
+					return
+				}
+				zsim.Yield(zsim.KOp, nil)
+			}
+		})
+	}
+	c.Nontrivial = true
+	c.Sim()
+	for i := 1; i < k; i++ {
+		if !bytes.Equal(sinks[i].Data, sinks[0].Data) {
+			c.Fail("C13: operations through Lock over a multi-WriteSyncer overlapped (the sinks saw different sequences)", "sink 0: %q\nsink %d: %q", clip(sinks[0].Data), i, clip(sinks[i].Data))
+			return
+		}
+	}
+	c.MixState(uint64(len(sinks[0].Data)))
+}
+
 func runC13(c *Ctx) {
+	if c.G.Chance(8) {
+		c13combined(c)
+		return
+	}
 	switch c.G.Weighted(3, 3, 2, 3) {
 	case 0:
 		c13multi(c)
